@@ -349,7 +349,15 @@ def _gud_run():
     which returned array gets which field name, and which attribute is handed to which keyword"""
     seen = {}
 
-    def g1d(**kw):
+    def g1d(*args, **kw):
+        # the wiring is what matters, not whether _run passes it by keyword or by position:
+        # bind positional arguments by the real signature of ramsey.guderley_1d
+        import inspect
+        from exactpack.solvers.guderley.ramsey import guderley_1d as real_g1d
+        try:
+            kw = dict(inspect.signature(real_g1d).bind(*args, **kw).arguments)
+        except TypeError as ex:
+            raise TraceError('guderley_1d called with arguments that do not bind: %s' % ex)
         if sorted(kw) != ['gamma', 'ngeom', 'r', 'rho0', 't']:
             raise TraceError('guderley_1d called with keywords %r' % sorted(kw))
         seen.clear()
@@ -464,7 +472,14 @@ def _rmtv_wire():
     field name"""
     seen = {}
 
-    def rmtv(**kw):
+    def rmtv(*args, **kw):
+        # keyword or positional call: bind by the real signature of timmes.rmtv (the wiring is what matters)
+        import inspect
+        from exactpack.solvers.rmtv.timmes import rmtv as real_rmtv
+        try:
+            kw = dict(inspect.signature(real_rmtv).bind(*args, **kw).arguments)
+        except TypeError as ex:
+            raise TraceError('rmtv called with arguments that do not bind: %s' % ex)
         if sorted(kw) != sorted(RMTV_KW + ['r']):
             raise TraceError('rmtv called with keywords %r' % sorted(kw))
         seen.clear()
